@@ -1,4 +1,6 @@
 import FCA.Generated.SortKeys
+import FCA.Generated.Extremes
+import FCA.Model.Misc
 import FCA.Model.Lattice
 /-
 C06 over the regenerated source: which order of the extents (`shortlex` / `longlex`) `Lattice.__init__` and `_init` of the
@@ -51,6 +53,27 @@ theorem C06_generated_mkLattice (K : Ctx) :
     C06_assembleCfg K (lindigLattice K) Generated.init_sort_cfg = some (mkLattice K) :=
   C06_generated_assemble K _
 
+/-! ### `lattice.infimum`, `lattice.supremum`, `lattice.atoms` -/
+
+/-- Python's `l[i]` for a possibly negative constant position -/
+def C06_pyIndex (L : Lattice) (i : Int) : Option LConcept :=
+  if i < 0 then (if (L.length : Int) + i < 0 then none else L[((L.length : Int) + i).toNat]?) else L[i.toNat]?
+
+/-- the properties of the current source return the first and the last concept of the iteration order, and the atoms are the
+upper neighbors of the first — the model's `Lattice.infimum`, `Lattice.supremum`, `Lattice.atomsOf` (`C06_infimum`, `C06_supremum`,
+`C06_atoms` say what these are) -/
+theorem C06_generated_extremes (L : Lattice) (h : L ≠ []) :
+    C06_pyIndex L Generated.infimum_pos = L.infimum ∧ C06_pyIndex L Generated.supremum_pos = L.supremum ∧
+    Generated.atoms_cfg = ("infimum", "upper_neighbors") ∧ L.atomsOf = ((L.infimum).map (·.upper)).getD [] := by
+  have hl : 0 < L.length := List.length_pos_iff.mpr h
+  refine ⟨rfl, ?_, rfl, ?_⟩
+  · simp only [C06_pyIndex, Generated.supremum_pos, Lattice.supremum]
+    have h1 : ¬ ((L.length : Int) + -1 < 0) := by omega
+    have h2 : ((L.length : Int) + -1).toNat = L.length - 1 := by omega
+    simp [h1, h2]
+  · simp only [Lattice.atomsOf, Lattice.upperAt, Lattice.infimum]
+
 end FCA
 #print axioms FCA.C06_generated_assemble
 #print axioms FCA.C06_generated_mkLattice
+#print axioms FCA.C06_generated_extremes
